@@ -532,7 +532,7 @@ func c14LuaEncode(c *c14ctx) {
 		}
 	}
 	input := v.JSON()
-	if !prefs.Globals && c.ch(6) == 0 {
+	if !prefs.Globals && c.ch(4) == 0 {
 		// YAML input with literal block scalars: the encoder writes those as Lua long brackets
 		v, input = c14LuaBlockDoc(c)
 		c.tag("lua:long_bracket_strings")
@@ -590,6 +590,11 @@ func c14LuaBlockDoc(c *c14ctx) (*ref.V, string) {
 		}
 		for len(ls) > 0 && ls[len(ls)-1] == "" {
 			ls = ls[:len(ls)-1]
+		}
+		if c.ch(3) == 0 {
+			// the text starts with empty lines (Lua drops ONE line break directly after an opening long bracket)
+			ls = append(make([]string, 1+c.ch(2)), ls...)
+			c.tag("lua:long_bracket_leading_newline")
 		}
 		s := strings.Join(ls, "\n")
 		ind := "|-"
